@@ -437,6 +437,7 @@ func report(res *CheckResult, p *Program, repo, tier string, seed int, evidenceP
 	assumptions = append(assumptions,
 		"signed integer arithmetic (+,-,*) is mathematical (no overflow obligation unless the contract asks with `opt overflow check`); unsigned arithmetic and all conversions wrap exactly",
 		"Go channel semantics (FIFO, exactly-once delivery, close) and the fold schema from per-iteration segment tables to whole-run statements are trusted (DESIGN.md 2.5, 4)",
+		"every function is verified as one sequential thread: a goroutine body is proved against its table with memory changing only through its own writes; interference is excluded by obligation for captured variables (#no-interference) and for channels and WaitGroups (C12 ownership rules), and is ASSUMED absent for objects reachable from several goroutines through pointers (shared receivers, configuration structs)",
 		"parameters of pointer type are allocated objects or nil; values read from the heap respect their Go type ranges")
 	sort.Strings(assumptions)
 	var failedNames []string
